@@ -12,6 +12,7 @@ import (
 	"encoding/binary"
 	"runtime"
 	"strconv"
+	"time"
 
 	"github.com/named-data/ndnd/fw/core"
 	"github.com/named-data/ndnd/fw/defn"
@@ -455,6 +456,17 @@ func (t *Thread) processIncomingData(packet *defn.Pkt) {
 		// Unsolicited Data - nothing more to do
 		core.LogDebug(t, "Unsolicited data ", packet.Name, " FaceID=", *packet.IncomingFaceID, " - DROP")
 		return
+	}
+
+	// A downstream whose Interest has outlived its lifetime is not pending any
+	// more, even though the entry lives on for the other downstreams' sake
+	now := time.Now()
+	for _, pitEntry := range pitEntries {
+		for face, record := range pitEntry.InRecords() {
+			if record.ExpirationTime.Before(now) {
+				delete(pitEntry.InRecords(), face)
+			}
+		}
 	}
 
 	// Get strategy for name
